@@ -108,6 +108,10 @@ private:
 
   RLBOX_SHARED_LOCK(func_ptr_cache_lock);
   std::map<std::string, void*> func_ptr_map;
+  // Some sandboxes use a different address for a function when it is handed
+  // to sandboxed code as a function pointer (needs_internal_lookup_symbol), so
+  // these addresses are cached separately
+  std::map<std::string, void*> internal_func_ptr_map;
 
   app_pointer_map<typename T_Sbx::T_PointerType> app_ptr_map;
 
@@ -470,6 +474,7 @@ public:
     {
       RLBOX_ACQUIRE_UNIQUE_GUARD(lock, func_ptr_cache_lock);
       func_ptr_map.clear();
+      internal_func_ptr_map.clear();
     }
 
     sandbox_created.store(Sandbox_Status::NOT_CREATED);
@@ -742,8 +747,8 @@ public:
     {
       RLBOX_ACQUIRE_SHARED_GUARD(lock, func_ptr_cache_lock);
 
-      auto func_ptr_ref = func_ptr_map.find(func_name);
-      if (func_ptr_ref != func_ptr_map.end()) {
+      auto func_ptr_ref = internal_func_ptr_map.find(func_name);
+      if (func_ptr_ref != internal_func_ptr_map.end()) {
         return func_ptr_ref->second;
       }
     }
@@ -756,7 +761,7 @@ public:
       func_ptr = this->impl_lookup_symbol(func_name);
     }
     RLBOX_ACQUIRE_UNIQUE_GUARD(lock, func_ptr_cache_lock);
-    func_ptr_map[func_name] = func_ptr;
+    internal_func_ptr_map[func_name] = func_ptr;
     return func_ptr;
   }
 
